@@ -161,6 +161,8 @@ pub fn check(plans: &[Plan], recs: &[RunRec]) -> Outcome {
     let mut capped = false;
     for (pi, (plan, rec)) in plans.iter().zip(recs).enumerate() {
         common_stats(plan, rec, &mut out.stats);
+        super::check_input_blocked(rec, &mut out);
+        super::check_input_panic(rec, &mut out);
         if plan.params.b("noise") {
             out.stats.inc("noise_runs");
             continue;
